@@ -856,7 +856,8 @@ def _should_skip(selector, skip_unknown):
     # With dynamic registration, "known" means resolvable through the current
     # file's imports (whether or not it has been registered already).
     try:
-      known = parse_context.get_configurable(selector) is not None
+      parse_context._resolve_selector(selector)  # pylint: disable=protected-access
+      known = True
     except (NameError, AttributeError):
       known = False
   else:
